@@ -378,13 +378,13 @@ def r19i(ctx):
 
 
 def run(ctx):
+    ctx.guard(r19j)         # pointed rules first (see Ctx.guard)
+    ctx.guard(r19k)         # pointed rules first (see Ctx.guard)
     ctx.guard(r19i)
     ctx.guard(r19a)
     ctx.guard(r19b)
     ctx.guard(r19c)
     ctx.guard(r19d)
-    ctx.guard(r19j)
-    ctx.guard(r19k)
     ctx.guard(r19e)
     ctx.guard(r19f)
     ctx.guard(r19g)
